@@ -28,7 +28,7 @@ EXPECTED_STATE = {"setup_m2": 2, "setup_m4": 4, "setup_m6": 6, "verify_m2": 2, "
 def build_grid() -> list[dict]:
     cells = []
     for step in STEPS:
-        drivers = ["ip"] if step in ("add_m2", "remove_m2") else ["pipe-ble"] if step == "resume_m2" else ["pipe-ip", "pipe-ble", "ip"]
+        drivers = ["ip"] if step in ("add_m2", "remove_m2") else ["pipe-ble"] if step == "resume_m2" else ["pipe-ip", "pipe-ble", "ip", "ble-link", "coap"]
         exp = EXPECTED_STATE[step]
         states = ["expected", "absent"] + [s for s in (exp - 1, exp + 1, exp + 2, 0, 255) if s != exp]
         for driver in drivers:
@@ -45,17 +45,20 @@ def build_grid() -> list[dict]:
 GRID = build_grid()
 RULE = (
     f"grid of {len(GRID)} cells = step {STEPS} x error code {CODES} x state (expected, absent, 5 wrong values) x other fields kept/dropped x "
-    "error TLV before/after the state TLV x driver (bare generator with IP-style `expected` filter, BLE-style without, or the full IP stack: "
-    "SecureHomeKitConnection._connect_once / IpDiscovery pairing / IpPairing.add_pairing / remove_pairing on the simulated network); cell index = "
+    "error TLV before/after the state TLV x driver (bare generator with IP-style `expected` filter, BLE-style without, the full IP stack: "
+    "SecureHomeKitConnection._connect_once / IpDiscovery pairing / IpPairing.add_pairing / remove_pairing on the simulated network, the real BLE pairing "
+    "channel drive_pairing_state_machine over the reference GATT accessory, or the real CoAP do_pair_setup / do_pair_verify over the simulated aiocoap "
+    "context; session resume on the BLE-style generator); cell index = "
     "seed mod grid size, so consecutive seeds enumerate the grid (coverage.grid_cells_visited is measured). Oracle per cell: error code with "
     "expected-or-absent state => raises exactly the documented class (2 Authentication, 3 Backoff, 4 MaxPeers, 5 MaxTries, 6 Unavailable, 7 Busy, "
     "else Invalid; remove-pairing: AuthenticationError or UnknownError); wrong state => raises a library error; never returns pairing data, keys or "
     "True; no error + expected/absent state + fields kept => succeeds (sanity). Non-trivial = every cell with an error code or a wrong/absent state."
 )
 REAL = ["aiohomekit.protocol (error_handler, handle_state_step, all three generators)", "aiohomekit.protocol.tlv (expected filter)",
-        "aiohomekit.controller.ip.connection / discovery / pairing (ip driver)"]
+        "aiohomekit.controller.ip.connection / discovery / pairing (ip driver)", "aiohomekit.controller.ble.client.drive_pairing_state_machine (ble-link driver)",
+        "aiohomekit.controller.coap.connection do_pair_setup / do_pair_setup_finish / do_pair_verify (coap driver)"]
 STUB = ["accessory (reference responders producing the scripted reply)", "pipe / simulated TCP", "entropy"]
-ASSUMPTIONS = ["BLE and CoAP pairing-management drivers are covered by their own worlds when claimed; here add/remove pairing run on IP"]
+ASSUMPTIONS = ["add/remove pairing are enumerated on IP only (BLE/CoAP management calls are not in the grid)"]
 TIERS = {"quick": {"runs": len(GRID), "wall": 100}, "thorough": {"runs": len(GRID) * 40, "wall": 1500}}
 
 
@@ -155,6 +158,15 @@ def _run_verify(cell, ch, ctx, mut):
         return _run_ip(cell, ch, ctx, verify_mut=mut)
     ident, pd, controllers = _identity(cell, ch)
     vr = hap.VerifyResponder(ident, controllers, ch.nbytes("eph", 32), mut=mut)
+    if cell["driver"] in ("ble-link", "coap"):
+        from checks.protocommon import run_ble_link, run_coap
+
+        try:
+            if cell["driver"] == "ble-link":
+                return run_ble_link(ctx, ch, "PAIR_VERIFY", [lambda _: get_session_keys(pd)], vr.handle, fsize=100 + cell.get("mseed", 0) % 3 * 72)[0], None
+            return run_coap(ctx, ch, "verify", vr.handle, pairing_data=pd)[0], None
+        except Exception as e:  # noqa: BLE001
+            return None, e
     pipe = Pipe("ip" if cell["driver"] == "pipe-ip" else "ble")
     try:
         return pipe.run(get_session_keys(pd), vr.handle), None
